@@ -581,3 +581,175 @@ func wkMatcherStateFlow(repo string) (string, error) {
 	fmt.Fprintf(&sb, "Definition gen_matchnode_sites : list (string * string) := [%s].\n", strings.Join(us, "; "))
 	return sb.String(), nil
 }
+
+// wkPkgLevelWrites (C09): every place outside init() / variable initialisers where a function of the engine's packages
+// writes a package-level variable: assignment (also through index / field / dereference), ++/--, delete(), or a call of a
+// mutating method (sync.Map Store / LoadOrStore / Delete ..., sync.Pool Put, atomic Add / Store / Swap ...) on it.
+// State kept there outlives every engine and every RunnerState. Syntactic: an identifier that a function declares
+// locally (parameter, :=, var) is not taken for the package-level variable of that name.
+func wkPkgLevelWrites(repo string) (string, error) {
+	fset := token.NewFileSet()
+	var dirs []string
+	for _, root := range []string{"ruleguard", "internal"} {
+		err := filepath.Walk(filepath.Join(repo, root), func(p string, info os.FileInfo, err error) error {
+			if err != nil {
+				return err
+			}
+			if info.IsDir() {
+				if info.Name() == "testdata" {
+					return filepath.SkipDir
+				}
+				dirs = append(dirs, p)
+			}
+			return nil
+		})
+		if err != nil {
+			return "", err
+		}
+	}
+	sort.Strings(dirs)
+	mutating := map[string]bool{"Store": true, "LoadOrStore": true, "LoadAndDelete": true, "Delete": true, "Swap": true, "CompareAndSwap": true,
+		"Add": true, "Put": true, "Set": true, "Reset": true, "Push": true, "Pop": true, "Do": true, "Write": true, "WriteString": true, "Grow": true, "Truncate": true}
+	rootIdent := func(e ast.Expr) *ast.Ident {
+		for {
+			switch x := e.(type) {
+			case *ast.Ident:
+				return x
+			case *ast.IndexExpr:
+				e = x.X
+			case *ast.SelectorExpr:
+				e = x.X
+			case *ast.StarExpr:
+				e = x.X
+			case *ast.ParenExpr:
+				e = x.X
+			case *ast.SliceExpr:
+				e = x.X
+			default:
+				return nil
+			}
+		}
+	}
+	var writes, vars []string
+	for _, dir := range dirs {
+		files, names, err := wkParseDir(fset, dir)
+		if err != nil {
+			return "", err
+		}
+		rel, _ := filepath.Rel(repo, dir)
+		pkgVars := map[string]bool{}
+		for _, n := range names {
+			for _, d := range files[n].Decls {
+				if gd, ok := d.(*ast.GenDecl); ok && gd.Tok == token.VAR {
+					for _, sp := range gd.Specs {
+						for _, id := range sp.(*ast.ValueSpec).Names {
+							if id.Name != "_" {
+								pkgVars[id.Name] = true
+								vars = append(vars, rel+":"+id.Name)
+							}
+						}
+					}
+				}
+			}
+		}
+		if len(pkgVars) == 0 {
+			continue
+		}
+		for _, n := range names {
+			for _, d := range files[n].Decls {
+				fd, ok := d.(*ast.FuncDecl)
+				if !ok || fd.Body == nil || (fd.Name.Name == "init" && fd.Recv == nil) {
+					continue
+				}
+				local := map[string]bool{}
+				for _, fl := range []*ast.FieldList{fd.Recv, fd.Type.Params, fd.Type.Results} {
+					if fl != nil {
+						for _, f := range fl.List {
+							for _, id := range f.Names {
+								local[id.Name] = true
+							}
+						}
+					}
+				}
+				ast.Inspect(fd.Body, func(x ast.Node) bool {
+					switch x := x.(type) {
+					case *ast.AssignStmt:
+						if x.Tok == token.DEFINE {
+							for _, l := range x.Lhs {
+								if id, ok := l.(*ast.Ident); ok {
+									local[id.Name] = true
+								}
+							}
+						}
+					case *ast.ValueSpec:
+						for _, id := range x.Names {
+							local[id.Name] = true
+						}
+					case *ast.RangeStmt:
+						if x.Tok == token.DEFINE {
+							for _, l := range []ast.Expr{x.Key, x.Value} {
+								if id, ok := l.(*ast.Ident); ok {
+									local[id.Name] = true
+								}
+							}
+						}
+					case *ast.FuncLit:
+						for _, f := range x.Type.Params.List {
+							for _, id := range f.Names {
+								local[id.Name] = true
+							}
+						}
+					}
+					return true
+				})
+				isPkgVar := func(e ast.Expr) (string, bool) {
+					id := rootIdent(e)
+					if id == nil || !pkgVars[id.Name] || local[id.Name] {
+						return "", false
+					}
+					return id.Name, true
+				}
+				fname := fd.Name.Name
+				if fd.Recv != nil && len(fd.Recv.List) == 1 {
+					fname = strings.TrimPrefix(wkSrc(fset, fd.Recv.List[0].Type), "*") + "." + fname
+				}
+				note := func(v, how string) { writes = append(writes, rel+":"+fname+":"+v+":"+how) }
+				ast.Inspect(fd.Body, func(x ast.Node) bool {
+					switch x := x.(type) {
+					case *ast.AssignStmt:
+						if x.Tok == token.DEFINE {
+							return true
+						}
+						for _, l := range x.Lhs {
+							if v, ok := isPkgVar(l); ok {
+								note(v, "assigned")
+							}
+						}
+					case *ast.IncDecStmt:
+						if v, ok := isPkgVar(x.X); ok {
+							note(v, "inc/dec")
+						}
+					case *ast.CallExpr:
+						if id, ok := x.Fun.(*ast.Ident); ok && id.Name == "delete" && len(x.Args) == 2 {
+							if v, ok := isPkgVar(x.Args[0]); ok {
+								note(v, "delete()")
+							}
+						}
+						if se, ok := x.Fun.(*ast.SelectorExpr); ok && mutating[se.Sel.Name] {
+							if v, ok := isPkgVar(se.X); ok {
+								note(v, "."+se.Sel.Name+"()")
+							}
+						}
+					}
+					return true
+				})
+			}
+		}
+	}
+	sort.Strings(writes)
+	var sb strings.Builder
+	sb.WriteString("\n(* package-level variables of ruleguard/... and internal/... written outside init() *)\n")
+	fmt.Fprintf(&sb, "Definition gen_pkg_level_writes : list string := %s.\n", wkCoqStrList(writes))
+	fmt.Fprintf(&sb, "Definition gen_pkg_level_var_count : N := %d.\n", len(vars))
+	return sb.String(), nil
+}
